@@ -4,12 +4,14 @@ from __future__ import annotations
 import ast
 import copy
 import dataclasses
+import itertools
 import re
 from typing import Any
 
 from jinja2 import nodes
 
 from .. import tplq
+from . import c04_tplwalk as tplwalk
 from ..astutil import Locals, call_name, calls_in, norm, region, short, where
 from ..core import PKG, Report
 from ..jinja_interp import expr_text
@@ -1502,101 +1504,149 @@ def run(rep: Report, ctx: Any) -> str:
               rhs="the iteration ends with an append to <endpoint>.errors and none to <endpoint>.responses")
 
     # ---- R04.6 ----------------------------------------------------------------------------------------------------------------
+    # Stated on what the union decoder WRITES, not on how the template keeps its books.  The construct macro of the union template is
+    # walked symbolically (c04_tplwalk: nothing is run, no document value exists) for every list of up to three abstract members, each
+    # known only by two facts about its property template - has a `construct` macro, has a `check_type_for_construct` macro - and for
+    # every assignment of the other conditions the template tests on the way.  Whether the template tracks "an unmodified member was
+    # seen" in a running namespace flag, partitions the members up front (call block, accumulating lists), filters the loop or skips
+    # with `continue` is all the same: the text of the decoder function comes out, the members' own macros as markers.  On that
+    # function (read as Python): a decoding step is a member's construct or the fall-through `return <the value>`; a step - or a type
+    # check's `raise` - that stands outside try/except ends the decoding, so it may be written only when no step of another member
+    # and no fall-through follows it.
     ut = jx.templates.get("property_templates/union_property.py.jinja")
-    cm = ut.macros.get("construct")
-    rep.require(cm, "union construct")
-    frs = list(tplq.frags(cm.body))
-    arms_txt: dict[tuple, str] = {}
-    for f in frs:
-        if f.kind == "data":
-            arms_txt[f.guards] = arms_txt.get(f.guards, "") + f.text
-    bare = [f for f in frs if f.kind == "data" and "raise TypeError()" in f.text and "try:" not in arms_txt.get(f.guards, "")]
-    rep.require(bare, "bare raise TypeError() in union construct")
-    # The "an unmodified member was seen" flag is found by its role, not by its spelling: the namespace attribute that the member loop
-    # sets to true exactly for members whose template has no construct macro (the alias of the member's imported template is part of
-    # the interface; the namespace, its attribute and the loop variable are template-local).
-    MEMBERS = "property.inner_properties"
-    aliases = {x.node.target for x in _tpl_stmts(cm.body, (nodes.Import,)) if x.loops == (MEMBERS,) and f"{MEMBERS}[*].template" in expr_text(x.node.template)}
-    rep.require(aliases, "import of the member's property template in the union construct loop")
-    has_construct = {f"{a}.construct" for a in aliases}
-    flags = set()
-    for x in _tpl_stmts(cm.body, (nodes.Assign,)):
-        if x.loops == (MEMBERS,) and isinstance(x.node.target, nodes.NSRef) and isinstance(x.node.node, nodes.Const) and x.node.node.value is True \
-                and any(tplq.implies(x, hc, False) for hc in has_construct):
-            flags.add(expr_text(x.node.target))
-    rep.require(len(flags) == 1, "the flag the union construct loop sets for members without a construct macro")
-    unmod = next(iter(flags))
+    rep.require(ut is not None and "construct" in ut.macros, "union construct")
+    KINDS = [(c, k) for c in (True, False) for k in (True, False)]
+    MARK = re.compile(r"^__(construct|check)_(\d+)__$")
+
+    def marks(n: ast.AST) -> list[tuple[str, int]]:
+        return [(m.group(1), int(m.group(2))) for x in ast.walk(n) if isinstance(x, ast.Name) for m in [MARK.match(x.id)] if m]
+
+    @dataclasses.dataclass
+    class _Decoder:
+        kinds: tuple
+        env: dict
+        constructs: list        # (member, line, inside try)
+        raises: list            # (member of the nearest marker before it, line, inside try)
+        fallbacks: list         # lines of `return <expression over the parameter>` at the function's top level
+
+        def follows(self, member: int, line: int) -> "str | None":
+            nxt = next((f"the construct of member {j + 1}" for j, ln, _ in self.constructs if ln > line and j != member), None)
+            return nxt or next(("the fall-through return of the value" for ln in self.fallbacks if ln > line), None)
+
+    decoders: list[_Decoder] = []
+    try:
+        for n_members in (1, 2, 3):
+            for kinds in itertools.product(KINDS, repeat=n_members):
+                for env_, text in tplwalk.renderings(jx, ut.name, "construct", list(kinds)):
+                    try:
+                        mod = ast.parse(text)
+                    except SyntaxError:
+                        rep.require(False, f"the text the union construct macro writes for members {kinds} readable as Python")
+                    fns = [f for f in ast.walk(mod) if isinstance(f, ast.FunctionDef)]
+                    d = _Decoder(kinds, env_, [], [], [])
+                    for fn in fns:
+                        par = fn.args.args[0].arg if fn.args.args else None
+                        in_try: dict[int, bool] = {}
+
+                        def visit(stmts: list[ast.stmt], guarded: bool) -> None:
+                            for st in stmts:
+                                in_try[id(st)] = guarded
+                                if isinstance(st, ast.Try):
+                                    visit(st.body, guarded or bool(st.handlers))
+                                    for h in st.handlers:
+                                        visit(h.body, guarded)
+                                    visit(st.orelse, guarded)
+                                    visit(st.finalbody, guarded)
+                                else:
+                                    for fld in ("body", "orelse"):
+                                        sub = getattr(st, fld, None)
+                                        if isinstance(sub, list) and sub and isinstance(sub[0], ast.stmt):
+                                            visit(sub, guarded)
+
+                        visit(fn.body, False)
+                        seen: list[tuple[int, int]] = []     # (line, member) of every marker
+                        for st in [s for s in ast.walk(fn) if isinstance(s, ast.stmt) and id(s) in in_try]:
+                            own = [x for x in ast.iter_child_nodes(st) if not isinstance(x, ast.stmt)]
+                            ms = [m for x in own for m in marks(x)] if not isinstance(st, (ast.FunctionDef, ast.Try)) else []
+                            seen += [(st.lineno, j) for _, j in ms]
+                            for what, j in ms:
+                                if what == "construct":
+                                    d.constructs.append((j, st.lineno, in_try[id(st)]))
+                        for st in [s for s in ast.walk(fn) if isinstance(s, ast.Raise) and id(s) in in_try]:
+                            before = [j for ln, j in sorted(seen) if ln <= st.lineno]
+                            d.raises.append((before[-1] if before else -1, st.lineno, in_try[id(st)]))
+                        d.fallbacks += [st.lineno for st in fn.body if isinstance(st, ast.Return) and st.value is not None and par is not None
+                                        and any(isinstance(x, ast.Name) and x.id == par for x in ast.walk(st.value))]
+                    d.constructs.sort(key=lambda c: c[1])
+                    decoders.append(d)
+    except tplwalk.Cannot as e:
+        rep.require(False, f"the union construct macro can be followed symbolically ({e})")
+    rep.floor("union_decoders_walked", len(decoders), 84)
+
+    def show(d: _Decoder) -> str:
+        names = {(True, True): "construct+check", (True, False): "construct, no check", (False, False): "unmodified", (False, True): "check only"}
+        return "members [" + ", ".join(names[k] for k in d.kinds) + "]" + (f" when {d.env}" if d.env else "")
+
+    undecoded = next((d for d in decoders if [j for j, _, _ in d.constructs] != [i for i, k in enumerate(d.kinds) if k[0]]), None)
+    rep.check(undecoded is None, "R04.6", "union_property.py.jinja::construct::every-member-decoded",
+              f"the union decoder does not write the construct of every member whose template has one, once and in the order of the members "
+              f"({show(undecoded) if undecoded else ''})", where=f"{PKG}/templates/{ut.name}",
+              lhs=[j for j, _, _ in undecoded.constructs] if undecoded else None, rhs="one construct per member with a construct macro, in order")
+    bad_raise = None
     n_b = 0
-    for f in bare:
-        n_b += 1
-        names = tplq.guard_atoms(f)
-        if unmod not in names:
-            rep.fail("R04.6", "union_property.py.jinja::construct::bare-raise", "the unguarded `raise TypeError()` does not depend on whether an "
-                     "unmodified member can still accept the value", where=f"{PKG}/templates/{ut.name}:{f.line}", lhs=names, rhs=unmod)
-            continue
-        bad = None
-        for env in tplq.assignments(names):
-            if tplq.guard_holds(f, env) and (env.get(unmod) or not env.get("loop.last", True)):
-                bad = env
-                break
-        rep.check(bad is None, "R04.6", "union_property.py.jinja::construct::bare-raise",
-                  f"a member's type check raises outside try/except although decoding could continue (e.g. {bad}): a value of a scalar "
-                  "alternative listed before a model makes from_dict / the response parser raise TypeError", where=f"{PKG}/templates/{ut.name}:{f.line}",
-                  lhs=[g for g, _ in f.guards], rhs="implies loop.last and not ns.contains_unmodified_properties")
+    for d in decoders:
+        for j, line, guarded in d.raises:
+            if guarded:
+                continue
+            n_b += 1
+            nxt = d.follows(j, line)
+            if nxt is not None and bad_raise is None:
+                bad_raise = (d, j, nxt)
+    rep.check(bad_raise is None, "R04.6", "union_property.py.jinja::construct::bare-raise",
+              "a member's type check raises outside try/except although decoding could continue" +
+              (f" ({show(bad_raise[0])}: the raise after member {bad_raise[1] + 1}'s check is followed by {bad_raise[2]})" if bad_raise else "") +
+              ": a value of a scalar alternative listed before a model makes from_dict / the response parser raise TypeError",
+              where=f"{PKG}/templates/{ut.name}", lhs=show(bad_raise[0]) if bad_raise else None,
+              rhs="a raise outside try/except only when no other member's construct and no fall-through return follows")
     rep.floor("bare_type_raises", n_b, 1)
     # ---- R04.12: the same condition for the member's construct itself, decided per member template -----------------------------------
-    # What the union decoder emits for a member depends on two facts about the member's template: whether it has a `construct` macro and
-    # whether it has a `check_type_for_construct` macro.  A member's construct emitted outside try/except ends the decoding: whatever
-    # it raises leaves the response parser, and the `return` after it makes every later member unreachable.  So, for every property
-    # template T that defines `construct`: under every assignment of the loop's guard atoms in which the two template facts have the
-    # values they have for T, the construct call is emitted outside a try only when nothing can follow (last member, no unmodified
-    # member).  The two sibling tables (templates with `construct` / with `check_type_for_construct`) and the union's guards are read
-    # together, so adding a construct macro without a type check, dropping a type check, or loosening the union's guard are the same
-    # finding.
+    # A member's construct written outside try/except ends the decoding: whatever it raises leaves the response parser, and the
+    # `return` after it makes every later member unreachable.  So, for every property template T that defines `construct`: in every
+    # walked decoder, a member with T's facts (has construct / has check_type_for_construct) gets its construct outside a try only when
+    # nothing can follow (no other member's construct, no fall-through return).  Adding a construct macro without a type check, dropping
+    # a type check, or loosening the union's guard are the same finding.
     rep.rule("R04.12", "for every property template that defines `construct`: with the template's own facts (has construct / has "
                        "check_type_for_construct) the union decoder emits the member's construct outside try/except only for the last "
                        "member when no unmodified member can still accept the value")
-    has_check = {f"{a}.check_type_for_construct" for a in aliases}
-
-    def member_construct(n: Any) -> bool:
-        while isinstance(n, nodes.Filter) and n.node is not None:
-            n = n.node
-        return isinstance(n, nodes.Call) and isinstance(n.node, nodes.Getattr) and n.node.attr == "construct" and \
-            isinstance(n.node.node, nodes.Name) and n.node.node.name in aliases
-
-    emitted = [f for f in frs if f.kind == "expr" and f.loops == (MEMBERS,) and member_construct(f.node)]
-    rep.require(emitted, "call of the member template's construct macro in the union construct loop")
-    unguarded = [f for f in emitted if "try:" not in arms_txt.get(f.guards, "")]
     n_tpl = 0
     for tname, t in sorted(jx.templates.items()):
         if not tname.startswith("property_templates/") or "construct" not in t.macros or t is ut:
             continue
         n_tpl += 1
         checked = "check_type_for_construct" in t.macros
-        bad_env = None
-        for f in unguarded:
-            names = tplq.guard_atoms(f)
-            for env in tplq.assignments(names):
-                if any(env.get(a) is False for a in has_construct) or any(a in env and env[a] != checked for a in has_check):
-                    continue
-                if tplq.guard_holds(f, env) and (env.get(unmod) or not env.get("loop.last", True)):
-                    bad_env = env
-                    break
-            if bad_env:
+        bad = None
+        for d in decoders:
+            for j, line, guarded in d.constructs:
+                if not guarded and d.kinds[j] == (True, checked):
+                    nxt = d.follows(j, line)
+                    if nxt is not None:
+                        bad = (d, j, nxt)
+                        break
+            if bad:
                 break
         short_name = tname.rsplit("/", 1)[-1]
-        rep.check(bad_env is None, "R04.12", f"union_property.py.jinja::construct::member[{short_name}]::unguarded-only-when-nothing-follows",
+        rep.check(bad is None, "R04.12", f"union_property.py.jinja::construct::member[{short_name}]::unguarded-only-when-nothing-follows",
                   f"a union member rendered by {short_name} ({'with' if checked else 'without'} check_type_for_construct) gets its construct "
-                  f"outside try/except although decoding could continue (e.g. {bad_env}): a value of a later alternative raises out of the "
-                  "response parser instead of being decoded", where=f"{PKG}/templates/{tname}",
+                  f"outside try/except although decoding could continue" +
+                  (f" (e.g. {show(bad[0])}: member {bad[1] + 1}'s construct is followed by {bad[2]})" if bad else "") +
+                  ": a value of a later alternative raises out of the response parser instead of being decoded", where=f"{PKG}/templates/{tname}",
                   lhs={"check_type_for_construct": checked}, rhs="construct inside try/except unless last member and no unmodified member")
     rep.floor("member_templates_with_construct", n_tpl, 5)
-    casts2 = [f for f in frs if f.kind == "data" and not f.loops and "return cast(" in f.text]
-    # emitted exactly when an unmodified member exists: both directions by truth table over the guard's atoms
-    rep.check(bool(casts2) and tplq.implies(casts2[0], unmod, True) and
-              all(tplq.guard_holds(casts2[0], env) for env in tplq.assignments(tplq.guard_atoms(casts2[0])) if env[unmod]),
-              "R04.6", "union_property.py.jinja::construct::fallback-cast",
-              "the fallback `return cast(...)` for unmodified members is missing or mis-guarded", where=f"{PKG}/templates/{ut.name}")
+    # the fall-through is written exactly when a member without a construct macro exists (it is the only way such a member is accepted)
+    miscast = next((d for d in decoders if bool(d.fallbacks) != any(not k[0] for k in d.kinds)), None)
+    rep.check(miscast is None, "R04.6", "union_property.py.jinja::construct::fallback-cast",
+              "the fallback `return cast(...)` for unmodified members is missing or mis-guarded" + (f" ({show(miscast)})" if miscast else ""),
+              where=f"{PKG}/templates/{ut.name}")
 
     # ---- reference convergence (shared with C20) ------------------------------------------------------------------------------
     params = {p.arg for p in rfd.params}
